@@ -407,8 +407,14 @@ def gen_history(seed, mode, thorough, hashseed):
                 ops.append(["gc"])
             elif c < 0.36:
                 ops.append(["churn", rng.choice([10, 500]), rng.choice([24, 512])])
-            elif c < 0.40:
+            elif c < 0.38:
                 ops.append(["options", "scalar", rng.choice(["float32", "complex128"])])
+            elif c < 0.40:
+                # somebody else in the process asks for (or sets) another log level
+                if rng.random() < 0.5:
+                    ops.append(["options", "verbosity", rng.choice([10, 10, 20, 40])])
+                else:
+                    ops.append(["options", "loglevel", rng.choice(["ffcx", "root"]), rng.choice([10, 10, 20, 50])])
             elif c < 0.44:
                 ops.append(["nprint", rng.choice(["low", "low", "high", "legacy", "default"])])
             elif c < 0.56 and len(pending) > 0:
@@ -776,6 +782,8 @@ def history_stats(scn, res):
         elif op[0] == "nprint":
             nprint = op[1] != "default"
             st["probe_nprint_ops"] += 1
+        elif op[0] == "options" and op[1] in ("verbosity", "loglevel"):
+            st["probe_log_level_changes"] += 1
         elif op[0] == "build":
             slot_req[op[1]] = op[2]
             for g in op[3]:
